@@ -280,8 +280,14 @@ CReb == <<StJ("", "k0", <<StW("", "size")>>)>>                                  
         \o <<StI("", "_load_rebuilt", <<StD("", "Nxxtop"), StD("", "_load_rebuilt")>>)>>    \* :401-434
 CLin == CReb \o <<StR("", "Nxxtop"), StR("", "plyts"), StR("", "laminaprops"), StD("", "lam"), StD("", "F"),
                   StD("", "kG0"), StR("", "excluded_dofs"), StD("", "k0"), StD("", "k0uk"), StD("", "k0uu")>>   \* :640-782
-CFullC == <<StW("", "size"), StP("", "excluded_dofs"), StR("", "model"), StP("", "tLArad")>>                                   \* calc_full_c :606-618 (full-size c)
-ConeScript(m) ==
+CFullC1 == <<StW("", "size"), StP("", "excluded_dofs"), StR("", "model"), StP("", "tLArad")>>                                   \* calc_full_c :606-618 (full-size c)
+ConeBase(m) == CASE m = "uvw_inc" -> "uvw" [] m = "strain_inc" -> "strain" [] m = "calc_fint_inc" -> "calc_fint"
+                 [] m = "calc_kT_inc" -> "calc_kT" [] OTHER -> m      \* the same query with inc = 0.5 (calc_full_c :606-618)
+ConeScript(mm) ==
+  LET m == ConeBase(mm)
+      \* with inc # 1 calc_full_c scales the entries listed in excluded_dofs: the list is consumed ([] before _rebuild)
+      CFullC == IF m = mm THEN CFullC1 ELSE CFullC1 \o <<StR("", "excluded_dofs")>>
+  IN
     CASE m = "calc_k0"   -> <<StC("", "k0uu", {}, "def", CLin)>>                         \* :785-788
       [] m = "calc_kT"   -> CFullC \o <<StI("", "k0", CLin)>>
                             \o <<StR("", "alpharad"), StR("", "L"), StR("", "F"), StR("", "k0"), StR("", "excluded_dofs")>>
@@ -302,7 +308,8 @@ ConeScript(m) ==
       [] m = "strain"    -> StWs("", <<"Xs", "Ts">>) \o CFullC \o <<StR("", "sina"), StR("", "cosa"), StR("", "L")>>   \* :1273-1308
       [] m = "stress"    -> StWs("", <<"Xs", "Ts">>) \o CFullC
                             \o <<StR("", "sina"), StR("", "cosa"), StR("", "L"), StR("", "F")>>  \* :1335-1370
-ConeMethods == {"calc_k0", "calc_kT", "calc_fint", "calc_fext", "lb", "static", "uvw", "strain", "stress"}
+ConeMethods == {"calc_k0", "calc_kT", "calc_fint", "calc_fext", "lb", "static", "uvw", "strain", "stress",
+                "uvw_inc", "strain_inc", "calc_fint_inc", "calc_kT_inc"}
 
 (* ------------------------------ dispatch ------------------------------ *)
 Methods(k) == CASE k \in {"Plate", "CPanel"} -> PanelMethods
@@ -318,8 +325,9 @@ Script(k, m) == CASE Class(k) = "Panel"    -> PanelScript(m)
 
 (* caller-supplied arrays of each call (hashed before/after by the replay) *)
 Touches(k, m) ==
-    CASE m \in {"calc_k0_c", "calc_kG0_c", "calc_kT_c", "calc_kT", "calc_fint", "plot", "uvw_stiffener"} -> {"c"}
-      [] m \in {"uvw", "strain", "stress", "uvw_skin"} ->
+    CASE m \in {"calc_k0_c", "calc_kG0_c", "calc_kT_c", "calc_kT", "calc_fint", "plot", "uvw_stiffener",
+                "calc_fint_inc", "calc_kT_inc"} -> {"c"}
+      [] m \in {"uvw", "strain", "stress", "uvw_skin", "uvw_inc", "strain_inc"} ->
             IF Class(k) = "Assembly" THEN {"c"}
             ELSE IF Class(k) = "ConeCyl" THEN {"c", "xs", "ts"} ELSE {"c", "xs", "ys"}
       [] m \in {"an_lb", "an_freq", "an_static"} -> {"K", "M"}
@@ -455,6 +463,10 @@ FailTable == {
   KFail("KF_C20_Bay_uvw_model", "Bay", "uvw_stiffener", "model", "KeyError", KeyNone),
   KFail("KF_C20_ConeCyl_calc_fint_L", "ConeCyl", "calc_fint", "L", "TypeError", RealNone),
   KFail("KF_C20_ConeCyl_calc_fint_L", "ConeCyl", "calc_fint", "F", "crash", "worker process died"),
+  KFail("KF_C20_ConeCyl_calc_fint_L", "ConeCyl", "calc_fint_inc", "L", "TypeError", RealNone),
+  KFail("KF_C20_ConeCyl_calc_fint_L", "ConeCyl", "calc_fint_inc", "F", "crash", "worker process died"),
+  KFail("KF_C20_ConeCyl_uvw_L", "ConeCyl", "uvw_inc", "L", "TypeError", RealNone),
+  KFail("KF_C20_ConeCyl_uvw_L", "ConeCyl", "strain_inc", "sina", "TypeError", RealNone),
   KFail("KF_C20_ConeCyl_uvw_L", "ConeCyl", "uvw", "L", "TypeError", RealNone),
   KFail("KF_C20_ConeCyl_uvw_L", "ConeCyl", "strain", "sina", "TypeError", RealNone),
   KFail("KF_C20_ConeCyl_uvw_L", "ConeCyl", "stress", "sina", "TypeError", RealNone) }
@@ -463,6 +475,7 @@ WrongTable == {
   [dev |-> "KF_C20_Assembly_get_k0_conn_lam", cls |-> "Assembly", stale |-> {"lam", "k0_conn"}, reuse |-> {}],
   [dev |-> "KF_C20_Assembly_get_k0_conn_conn", cls |-> "Assembly", stale |-> {}, reuse |-> {"k0_conn"}],
   [dev |-> "KF_C20_ConeCyl_uvw_alpharad", cls |-> "ConeCyl", stale |-> {"alpharad"}, reuse |-> {}],
+  [dev |-> "KF_C20_ConeCyl_calc_kT_excluded_dofs", cls |-> "ConeCyl", stale |-> {"excluded_dofs"}, reuse |-> {}],
   [dev |-> "KF_C20_Panel_redefinition_plyts", cls |-> "Panel", stale |-> {"plyts", "laminaprops", "lam", "F"},
    reuse |-> {}] }
 AllDeviations == {f.dev : f \in FailTable} \cup {w.dev : w \in WrongTable}
@@ -527,6 +540,7 @@ Idempotent ==
             s2 == Exec(kind, m, s1.d, s1.k, s1.e)
         IN \/ s2.d = s1.d /\ s2.k = s1.k /\ s2.out = s1.out /\ s2.attr = s1.attr
            \/ s2.out # "ok" /\ Explains(kind, m, s2, Deviations) # {}      \* a listed finding breaks the repetition
+           \/ s1.out # "ok" /\ Explains(kind, m, s1, Deviations) # {}      \* the first call is itself a listed finding
 (* every failure signature of the tables is consistent with the scripts: the attribute is read *)
 TablesConsistent ==
     \A f \in FailTable : \E k \in AllKinds : Class(k) = f.cls /\ (f.m = "*" \/ f.m \in Methods(k))
